@@ -9,9 +9,9 @@ What the renaming of one program is, is the composition of:
   Obfuscator.finalize         close the global scope, then build from a generator that skips the reserved keywords;
                               top-level names are remapped iff obfuscate_globals
 Dict / set state is modelled by recording doubles (get / __setitem__ / __contains__ are externals with a ghost log); the
-declared-set membership is an uninterpreted predicate.  That the names a NameGenerator yields are pairwise distinct and
-outside its skip set, and that the reserved set computed by Scope._reserved_symbols is the right one (capture freedom),
-are NOT under contract here: bounded stand-in against spec/scopes.py."""
+declared-set membership is an uninterpreted predicate.  The reserved set (Scope._reserved_symbols) and the symbol tables are
+under contract in contracts/scopes.py, the marker handlers in contracts/obfuscator.py.  That the names a NameGenerator yields
+are pairwise distinct and outside its skip set is NOT under contract: bounded stand-in."""
 import z3
 
 from vf.pyvc.dsl import Contract, Loop, Const, OneOf, Helper, PExt, PObj, PList, Str, Int, Bool, SBool, SInt, SStr
